@@ -40,6 +40,7 @@ class Scheduler:
         self.preemptions = 0
         self.preempt_in_hub = 0
         self.idle_sleeps: Dict[str, int] = {}
+        self.idle_limit = 2  # empty polls after everybody else finished before a loop counts as stuck (the first may be stale)
         self.sleep_count: Dict[str, int] = {}
         self.aborted = False
         self.inconclusive: Optional[str] = None
@@ -81,7 +82,7 @@ class Scheduler:
         others_done = all(st == "done" for n, st in self.state.items() if n != me)
         if others_done:
             self.idle_sleeps[me] = self.idle_sleeps.get(me, 0) + 1
-            if self.idle_sleeps[me] >= 2:
+            if self.idle_sleeps[me] >= self.idle_limit:
                 raise Stuck()
         self.yield_point(me, polling=True)
 
